@@ -34,15 +34,15 @@ CHECKS.update({
  "C10": ("txsim", "exploration", "Per step: a state-changing opcode (SSTORE, TSTORE, LOGn, CREATE, CREATE2, SELFDESTRUCT, CALL with value) attempted while the interpreter is static must end in an error result; per frame: a snapshot of balances, nonces, code, storage, transient storage, logs and created/destroyed flags taken at the hook of every outermost static frame must be unchanged at its end; static mode must be inherited by every nested frame.", E1_NOTE, E1_TECH, "5 C10"),
  "C11": ("txsim", "exploration", "The monitor copies the parent's memory when it issues a call/create and compares it byte for byte at the parent's next instruction: equal except the first min(out_len, returndata) bytes of the return window, same length; every frame's first instruction sees empty memory. Children are killed by out-of-gas at arbitrary points and replaced by inspector short-circuits.", E1_NOTE + " The API-level model of SharedMemory (E4) is not built yet.", E1_TECH, "5 C11"),
  "C29": ("txsim", "exploration", "History check over the callback stream of the real inspector plumbing: every call/create/eofcreate notification is matched LIFO by exactly one end notification with identical inputs (including rejected, precompile, depth-limit and short-circuited frames), every step has exactly one step_end before anything else happens, every LOG that continues is followed by exactly one log notification carrying the last journaled log, nothing is left open at transaction end, and a transaction after an aborted one parses from a clean start.", E1_NOTE, E1_TECH, "5 C29"),
- "C30": ("txsim", "exploration", "At every SELFDESTRUCT step the monitor notes the executing contract, the beneficiary on the stack and the contract's balance; if the instruction completes exactly one notification with those operands must follow, otherwise none; notifications after any other instruction are violations. Worlds bias self-destructs to self/other/new accounts, with and without balance, created in the same transaction or not, before and after Cancun, preceded by value-bearing calls.", E1_NOTE + " For a Cancun self-targeting self-destruct of a pre-existing contract nothing leaves the contract; a reported value of 0 or of the balance is accepted.", E1_TECH, "5 C30"),
+ "C30": ("txsim", "exploration", "At every SELFDESTRUCT step the monitor notes the executing contract, the beneficiary on the stack and the contract's balance; if the instruction completes exactly one notification with those operands must follow, otherwise none; notifications after any other instruction are violations. Worlds bias self-destructs to self/other/new accounts, with and without balance, created in the same transaction or not, before and after Cancun, preceded by value-bearing calls.", E1_NOTE + " For a Cancun self-targeting self-destruct of a pre-existing contract nothing leaves the contract: the reported value must be 0; in every other case it must be the contract's balance.", E1_TECH, "5 C30"),
  "C34": ("txsim", "exploration", "An executable access-set model (EIP-2929/2930/3651/7702, nested rollback) predicts cold/warm for every SLOAD, SSTORE, BALANCE, EXTCODESIZE, EXTCODEHASH, EXTCODECOPY, CALL-family and SELFDESTRUCT step; the monitor compares it with the status revm applied (a cold load is journaled) and with the exact gas of SLOAD/BALANCE/EXTCODESIZE/EXTCODEHASH/SSTORE; the JournaledState API is checked the same way under nested checkpoint reverts (E2).", E1_NOTE + " Composite prices (CALL, EXTCODECOPY, SELFDESTRUCT) are checked through the applied status only; SSTORE through revm's own formula evaluated with the model's cold bit.", E1_TECH, "5 C34"),
 })
 
 TWIN_TECH = "deterministic simulation: twin execution of one seeded history on two differently built systems, with injected database faults"
 CHECKS.update({
  "C02": ("validsim", "exploration", "Boundary-biased transaction fields (gas limit around intrinsic/floor/block limit, fees around the base fee, nonce, value around the balance, overflowing products, sender with code or delegation, initcode size, blob counts/versions/prices, authorization lists, access lists, chain id, missing header fields) in histories of 1-10 transactions on one Evm. Oracle 1: an executable validity predicate written from the EIPs must agree on accept / reject-transaction / reject-header. Oracle 2: the history without the rejected transactions, run on a second system, gives equal results and an equal final state; the state is also compared around every rejected transaction. Database faults during validation must surface as errors and leave no trace.", E1_NOTE + " Only the class of a rejection is compared (several rules can fail at once).", "deterministic simulation: seeded boundary-value histories against an executable validity model + twin history without the rejected transactions + injected database faults", "5 C02"),
- "C21": ("collidesim", "exploration", "Collision matrix sampled per run: target pre-state {absent, code, nonce, storage only, balance only, nonce+storage} x nine layer stacks (and storage inserted into a CacheDB) x {CREATE, CREATE2, create transaction, EOFCREATE, EOF create transaction (the two EOF kinds under OSAKA)} x spec x {target touched by an earlier transaction or not}. Collision must occur exactly when the reference target has code, nonce or storage; on collision the create returns 0 / the transaction halts with CreateCollision, the forwarded gas is consumed, the target is unchanged and the creator's nonce is bumped; otherwise the contract is deployed over the kept balance.", E1_NOTE, "deterministic simulation: seeded configuration matrix over layer stacks (F7) with a reference collision predicate", "5 C21"),
- "C22": ("twinsim", "exploration", "A reward-off Evm and a reward-on twin run the same history of transactions interleaved with modify_spec_id, with_spec_id, append/pop handler register and modify().build(); after the history the reward-off beneficiary must be unchanged, the reward-on beneficiary must have gained exactly the sum of (price - base fee) x gas used, every result must be equal and every other account equal.", E1_NOTE + " Histories in which the beneficiary is a party of a transaction are not compared; no database faults (the twins issue different database calls).", TWIN_TECH, "5 C22"),
+ "C21": ("collidesim", "exploration", "Collision matrix sampled per run: target pre-state {absent, code, nonce, storage only, balance only, nonce+storage} x eleven layer stacks incl. CacheDB<EmptyDB> / State<EmptyDB> (and storage inserted into a CacheDB) x {CREATE, CREATE2, create transaction, EOFCREATE, EOF create transaction (the two EOF kinds under OSAKA)} x spec x {target untouched, read, or read and paid one wei by an earlier committed transaction}. Collision must occur exactly when the reference target has code, nonce or storage; on collision the create returns 0 / the transaction halts with CreateCollision, the forwarded gas is consumed, the target is unchanged and the creator's nonce is bumped; otherwise the contract is deployed over the kept balance.", E1_NOTE, "deterministic simulation: seeded configuration matrix over layer stacks (F7) with a reference collision predicate", "5 C21"),
+ "C22": ("twinsim", "exploration", "A reward-off Evm and a reward-on twin run the same history of transactions interleaved with modify_spec_id, with_spec_id, append/pop handler register and modify().build() (half of the reward-off systems carry no inspector, so that popping empties the register list); after the history the reward-off beneficiary must be unchanged, the reward-on beneficiary must have gained exactly the sum of (price - base fee) x gas used, every result must be equal and every other account equal.", E1_NOTE + " Histories in which the beneficiary is a party of a transaction are not compared; no database faults (the twins issue different database calls).", TWIN_TECH, "5 C22"),
  "C28": ("twinsim", "exploration", "Every generated history runs on a system without inspector and on a twin with NoOpInspector, GasInspector, TracerEip3155 or the monitor registered through inspector_handle_register; ExecutionResult (class, reason, gas used, refunded, output, logs), the returned EvmState (every field) and the final committed state must be equal; database faults use the identical call-index schedule on both twins (evaluated when both issue the same database calls).", E1_NOTE, TWIN_TECH, "5 C28"),
  "C31": ("twinsim", "fault_enumeration", "System A is one Evm reused for the whole history (valid, rejected, reverting, halting transactions through transact / transact_commit / preverify_transaction / transact_preverified, transact without commit, spec changes, block advances); system B takes its database out of the Evm and builds a brand-new Evm around it before every op. Results, returned states and the final committed state must be equal. Database faults are injected at drawn call indices and, for marked ops, enumerated over every database call index of the op (the whole history is re-run once per index).", E1_NOTE + " Enumeration is capped at 48 call indices per marked op.", TWIN_TECH + "; fault enumeration over every database call index of marked ops", "5 C31"),
 })
@@ -61,15 +61,15 @@ CHECKS.update({
 
 E4_NOTE = "No environment fault, schedule or interleaving exists at this surface; what is used from deterministic simulation is the reference-model oracle over seeded operation histories with shrinking and replay (model conformance only). API preconditions are respected. The same histories also run under Miri (interp-miri/) as part of the C25 check."
 CHECKS.update({
- "C12": ("adtsim", "exploration", "Seeded histories of push, push_b256, pop, peek, dup, swap, exchange, push_slice (lengths 0..1024*32+64, biased to word boundaries and to the 1024 limit) and set on the real Stack against a Vec<U256> model: equal contents after every operation, underflow/overflow reported exactly when the model says so, and a failed operation leaves the stack unchanged.", E4_NOTE + " push_slice: the last short word is read as the big-endian number of the remaining bytes (unused high-order bytes zero), which is what the shipped unit test pins and PUSHn needs.", "deterministic simulation family used for model conformance: seeded operation histories against a sequential reference model (no fault dimension exists)", "5 C12"),
- "C13": ("adtsim", "exploration", "Seeded histories of record_cost (incl. 0, remaining, remaining+1, u64::MAX), erase_cost of gas charged before, record_refund +/-, set_refund, set_final_refund (London / pre-London) and spend_all on the real Gas meter with limits 0, small, large and u64::MAX against three integers: remaining <= limit, failed charge changes nothing, successful charge reduces remaining by exactly the cost, spent = limit - remaining, final refund = min(refund, spent/q).", E4_NOTE, "deterministic simulation family used for model conformance: seeded operation histories against a sequential reference model (no fault dimension exists)", "5 C12/C13"),
+ "C12": ("adtsim", "exploration", "Seeded histories of push, push_b256, pop, peek, dup, swap, exchange, push_slice (lengths 0..1024*32+64, biased to word boundaries and to the 1024 limit) and set on the real Stack against a Vec<U256> model: equal contents after every operation, underflow/overflow reported exactly when the model says so, and a failed operation leaves the stack unchanged. One case in four is a program of stack instructions only (PUSH0, PUSH1-32 incl. a final PUSHn cut short by the end of the code, POP, DUP1-16, SWAP1-16 and, in an EOF container, DUPN / SWAPN / EXCHANGE with boundary immediates; up to 1100 instructions) executed by the real interpreter loop with the real instruction table under a gas limit that lands the out-of-gas on an arbitrary instruction; final stack, result and gas meter must equal the list model.", E4_NOTE + " push_slice: the last short word is read as the big-endian number of the remaining bytes (unused high-order bytes zero), which is what the shipped unit test pins and PUSHn needs.", "deterministic simulation family used for model conformance: seeded operation histories against a sequential reference model (no fault dimension exists)", "5 C12"),
+ "C13": ("adtsim", "exploration", "Seeded histories of record_cost (incl. 0, remaining, remaining+1, u64::MAX), erase_cost of gas charged before, record_refund +/-, set_refund, set_final_refund (London / pre-London) and spend_all on the real Gas meter with limits 0, small, large and u64::MAX against three integers: remaining <= limit, failed charge changes nothing, successful charge reduces remaining by exactly the cost, spent = limit - remaining, final refund = min(refund, spent/q). One case in four is a program of stack instructions run by the real interpreter loop whose gas limit is drawn inside the program's total cost (F2): the charge that fails must leave meter and stack as they were, every successful charge is exactly the instruction's cost.", E4_NOTE + " In the program cases the out-of-gas point is the one fault this surface has.", "deterministic simulation family used for model conformance: seeded operation histories against a sequential reference model (no fault dimension exists)", "5 C12/C13"),
  "C25": ("interpsim+txsim+miri", "exploration", "E5: the interpreter alone on random byte strings, generated and byte-mutated programs and every shipped EOF container (and mutated copies) that revm's validation accepts, across calldata, gas limits 0..1M, 13 specs and the static flag, with a simulated Host failing at a drawn host-call index and a simulated caller answering every CALL/CREATE/EOFCREATE with a drawn legal outcome; invariants: no panic (debug assertions, overflow checks and revm's assume!/debug_unreachable! are live), the guarded instruction-pointer and free_context hooks never fire, remaining gas <= limit, stack <= 1024, at most gas_limit+2 steps (bounded liveness), a defined final result, FatalExternalError after a failed host call. E1: every monitor oracle on; any panic inside revm during a whole transaction, including under database faults at drawn call indices and inspector short-circuits, is a C25 violation. Miri: the same E5/E4 engines run under cargo miri (4 shards quick, 16 thorough) for undefined behaviour in stack.rs, shared_memory.rs, push, jumps, analysis.", "Trusted: SimHost, the simulated caller, the program generator, Miri. The C libraries and the full Evm cannot run under Miri: memory-safety evidence is limited to the interpreter crate with a simulated host. The input-space half of the property is ordinary seeded generation; what simulation adds is the fault dimension, the hooks as run-time invariants, the deterministic UB executor and the step bound.", "deterministic simulation: seeded programs x host-failure index x simulated sub-call outcomes with hook invariants and a step bound; Miri as deterministic executor for undefined behaviour", "5 C25"),
 })
 CHECKS["C11"] = ("txsim+adtsim",) + CHECKS["C11"][1:3] + ("Trusted: as for the other monitor-mode checks, plus the Vec<Vec<u8>> model of SharedMemory contexts (E4: new_context/free_context/resize_memory/set*/copy/slice histories; growth must cost 3w + w^2/512 and fail without change when gas is short).",) + CHECKS["C11"][4:]
 
 
 CHECKS.update({
- "C20": ("wrapsim", "fault_enumeration", "Ten wrapper stacks (CacheDB, State, State+bundle, WrapDatabaseRef, WrapDatabaseRef<CacheDB>, CacheDB<CacheDB>, State<CacheDB>, Box<State<Box>>, DatabaseComponents<Arc,Arc>, CacheDB<DatabaseComponents>) over the simulated disk answer sequences of basic / code_by_hash / storage / block_hash (around the 256-block window, far past, future) / has_storage queries issued directly, through `&mut DB`, through a boxed `&mut dyn Database` and through the `_ref` forms, interleaved with real transactions committed through the stack and block-number jumps; every answer must equal the reference (disk + committed changes). A database fault at each bottom-level call index of a query (0..2: a query makes at most three) must surface as an error, never as a default, and the repeated query must then be right.", "Trusted: SimDisk/FaultyDb (also as StateRef/BlockHashRef components), the reference applier. An existing empty account and a missing account are the same answer once state clearing is active; code may be handed out lazily. Known finding D14 (has_storage cannot see that committed changes zeroed every slot below) is listed in known_findings.json.", "deterministic simulation: seeded query/commit histories over wrapper stacks with a database fault at every bottom-level call index of a query", "5 C20"),
+ "C20": ("wrapsim", "fault_enumeration", "Twelve wrapper stacks (CacheDB, State, State+bundle, WrapDatabaseRef, WrapDatabaseRef<CacheDB>, CacheDB<CacheDB>, State<CacheDB>, Box<State<Box>>, DatabaseComponents<Arc,Arc>, CacheDB<DatabaseComponents> over the simulated disk, and CacheDB<EmptyDB> / State<EmptyDB> holding the world themselves, loaded through the insert API) answer sequences of basic / code_by_hash / storage / block_hash (around the 256-block window, far past, future) / has_storage queries issued directly, through `&mut DB`, through a boxed `&mut dyn Database` and through the `_ref` forms, interleaved with real transactions committed through the stack, block-number jumps and (CacheDB on top) insert_account_storage / replace_account_storage / insert_account_info calls; on CacheDB-topped stacks storage and has_storage are also asked cold (account not loaded first), for every account kind with a bias to accounts that exist but are empty; every answer must equal the reference (disk + committed changes). A database fault at each bottom-level call index of a query (0..2: a query makes at most three) must surface as an error, never as a default, and the repeated query must then be right.", "Trusted: SimDisk/FaultyDb (also as StateRef/BlockHashRef components), the reference applier. An existing empty account and a missing account are the same answer once state clearing is active; code may be handed out lazily. Known finding D14 (has_storage cannot see that committed changes zeroed every slot below) is listed in known_findings.json.", "deterministic simulation: seeded query/commit histories over wrapper stacks with a database fault at every bottom-level call index of a query", "5 C20"),
  "C33": ("opsim", "exploration", "Optimism build: regular, deposit and pre-Regolith system transactions with random enveloped bytes over BEDROCK..ISTHMUS and L1-block storage in all layouts (incl. non-zero operator fee scalar/constant). Regular: sender debit = value + beneficiary + base-fee vault + L1 vault + operator vault credits exactly; L1 vault credit = calculate_tx_l1_cost(enveloped) of the public helper; base-fee vault = base fee x gas used. Deposits: total supply grows by exactly the mint; a deposit that reverts or halts at an arbitrary point (low gas limits) persists exactly mint and nonce bump. Database faults at drawn call indices (L1 block info reads, failed-deposit path) must abort without a fabricated state.", E1_NOTE + " Balances stay below 2^128; programs move no ether themselves; deposits that cannot start (gas limit below intrinsic) are not generated.", "deterministic simulation: seeded Optimism transaction histories with out-of-gas points and injected database faults, five-party conservation invariant", "5 C33"),
 })
 
